@@ -7,8 +7,8 @@ later put, loop yields at seeded points (so a get task starts before / after the
 boundary rules PROPAGATE / TERMINATE / both towards the port itself or another port (plain,
 filtering or inter-workflow), tag lists with duplicates and with tags that never arrive, rules
 added after matching tokens were already put (replay path).  Bounded-exhaustive: every operation
-sequence of length <= 6/5/5 (quick) or 8/7/6 (thorough) over the plain / filter / inter-workflow
-alphabets (4 / 5 / 11 operations), each under two
+sequence of length <= 6/5/5/5 (quick) or 8/7/6/7 (thorough) over the plain / filter / inter-workflow /
+late-rule alphabets (4 / 5 / 11 / 7 operations), each under two
 yield policies; plus seeded random histories of 3..28 operations.
 
 Oracle: `vf.models.c03_ports.Model` (a log per port, a cursor per consumer).  Every token carries
@@ -16,10 +16,14 @@ a unique id, so each consumer's received sequence is compared position by positi
 (linear).  Also judged: a get returns (within a few loop turns) iff the log holds an undelivered
 token for that consumer; after reading the whole log one more get blocks.
 
-Domain: histories in which the statement defines the result.  Histories that put a data token on an
-inter-workflow port after one of its boundaries already completed, or whose rule replay fires on
-more than the completing token / on the port itself, are executed and compared with the pinned
-behaviour but only *recorded* (ood_* notes), never judged.
+Boundary actions are judged under the literal reading of the statement (= the pinned behaviour): the
+action applies to every data token put or replayed while the rule's remaining tag list is empty --
+the completing token, every later token, rules created with an empty tag list, and late-attached
+rules replaying the whole log from the completing token on.
+
+Domain: only one kind of history is executed but *recorded* instead of judged (ood_* notes): a rule
+targeting the port itself whose replay fires (the code re-puts already delivered tokens on the same
+port; the engine installs such rules before injecting tokens -- DESIGN C03).
 """
 from __future__ import annotations
 
@@ -55,16 +59,19 @@ def plan(tier):
         "min_nontrivial": 20000 if q else 250000,
         "required_counters": ["oracle_consumer_sequence", "oracle_get_blocks_iff_empty", "late_subscribers_checked",
                               "boundary_actions_observed", "replay_rules_observed", "exhaustive_histories",
-                              "random_histories"],
+                              "random_histories", "post_completion_tokens_judged", "empty_tag_rule_firings_judged",
+                              "late_rule_multi_token_replays_judged"],
         "rule": "a case = (port spec, operation history incl. yields); exhaustive over all operation sequences of "
-                f"length <= {'6/5/5' if q else '8/7/6'} (plain/filter/inter-workflow alphabets of 4/5/11 operations) under 2 "
+                f"length <= {'6/5/5/5' if q else '8/7/6/7'} (plain/filter/inter-workflow/late-rule alphabets of 4/5/11/7 "
+                "operations) under 2 "
                 "yield policies, plus seeded random histories; "
                 "non-trivial = at least one token was delivered to a consumer and the history is inside the "
                 "judged domain; distinct = distinct (spec, history).",
         "exhaustive": True,
         "assumptions": ["one outstanding get per consumer name (what steps do)",
-                        "data tokens put after a boundary completed, and replays that fire on more than the "
-                        "completing token or on the port itself, are recorded, not judged"],
+                        "a boundary action applies to every token put/replayed while the rule's tag list is empty "
+                        "(literal reading = pinned behaviour)",
+                        "a rule targeting the port itself whose replay fires is recorded, not judged"],
     }
 
 
@@ -243,6 +250,10 @@ async def run_history(sh, case):
     r.judge()
     sh.count("boundary_actions_observed", r.model.fired)
     sh.count("replay_rules_observed", r.model.replayed)
+    if r.model.ood is None:
+        sh.count("post_completion_tokens_judged", r.model.post_completion)
+        sh.count("empty_tag_rule_firings_judged", r.model.empty_rule_fired)
+        sh.count("late_rule_multi_token_replays_judged", r.model.replay_multi)
     return r
 
 
@@ -273,6 +284,11 @@ def alphabet(kind):
     elif kind == "filter":
         spec = {"p": {"kind": "filter", "allowed": ["0.0"]}}
         ops = [["put", "p", "0.0"], ["put", "p", "0.1"], ["term", "p", "COMPLETED"], ["get", "p", "c0"], ["get", "p", "c1"]]
+    elif kind == "inter_late":
+        # boundaries that are already complete: later tokens, empty tag lists, rules attached late
+        spec = {"p": {"kind": "inter"}, "o": {"kind": "plain"}}
+        ops = [["put", "p", "0.0"], ["put", "p", "0.1"], ["get", "o", "c1"], ["get", "p", "c0"],
+               ["rule", "p", "o", [], "P"], ["rule", "p", "o", ["0.0"], "PT"], ["rule", "p", "p", [], "T"]]
     else:
         spec = {"p": {"kind": "inter"}, "o": {"kind": "plain"}}
         ops = [["put", "p", "0.0"], ["put", "p", "0.1"], ["term", "p", "COMPLETED"], ["get", "p", "c0"], ["get", "o", "c1"],
@@ -370,10 +386,10 @@ async def _run_shard(sh: Shard) -> None:
 
     stats = new_stats()
     t0 = time.time()
-    max_lens = {"plain": sh.pick(6, 8), "filter": sh.pick(5, 7), "inter": sh.pick(5, 6)}
+    max_lens = {"plain": sh.pick(6, 8), "filter": sh.pick(5, 7), "inter": sh.pick(5, 6), "inter_late": sh.pick(5, 7)}
     # (a) bounded-exhaustive histories
     idx = 0
-    for kind in ("plain", "filter", "inter"):
+    for kind in ("plain", "filter", "inter_late", "inter"):
         spec, ops = alphabet(kind)
         complete = 0  # largest length whose sequences (this shard's share) were all run
         for length in range(1, max_lens[kind] + 1):
